@@ -78,6 +78,10 @@ def rlabel(r, delim_text):
         s = s.strip()
         s = s.strip("\x1c\x1d\x1e\x1f\x85  ")
         if s and "\n" not in s and "\r" not in s and s == s.strip():
+            if delim_text in (",", ";") and r.random() < 0.15:
+                # "a, b" style: after a non-whitespace delimiter the blanks belong
+                # to the label (only the line as a whole is stripped)
+                s = r.choice([" ", "  "]) + s
             return s
 
 
@@ -336,6 +340,9 @@ def check_fault(ctx, mods, r, f, scratch, k):
         faults.append("column-removed")
     if fmt in ("intervals", "valued_intervals", "time_series", "tempo"):
         faults.append("column-added")
+    if f["sep"] in (",", ";") and fmt in ("events", "intervals", "valued_intervals",
+                                          "time_series", "tempo", "ragged"):
+        faults.append("trailing-delimiter")
     if fmt in ("key", "tempo"):
         faults += ["extra-line"]
     if fmt == "tempo":
@@ -369,6 +376,8 @@ def check_fault(ctx, mods, r, f, scratch, k):
             return  # the remaining text is a comment line: not a fault
     elif fault == "column-added":
         rows[i].insert(r.randrange(len(rows[i]) + 1), "3.5")
+    elif fault == "trailing-delimiter":
+        rows[i].append("")  # "1.0,2.0," : an empty last field
     elif fault == "extra-line":
         rows.append(list(rows[0]))
         want_row = False
